@@ -40,7 +40,7 @@ Section Scan.
       exists t'. destruct (V t') as (_&_&E3&_&_&_&_&E8&_). rewrite E3, E8. auto.
     - intros t' b Ht. destruct (V t') as (_&_&_&_&_&E6&_&E8&_). rewrite E6 in Ht. rewrite E8. auto.
     - intros t' o' lb Ht. destruct (V t') as (_&_&_&_&_&_&_&E8&_). rewrite E8 in Ht. auto.
-    - intros t' e Ht. destruct (V t') as (E1&_&_&_&_&_&E7&_). rewrite E7 in Ht. rewrite E1. auto.
+    - intros t' e f Ht. destruct (V t') as (E1&_&_&_&_&E6&E7&_). rewrite E7 in Ht. rewrite E1, E6. eauto.
     - intros t' n Ht. destruct (V t') as (_&_&_&_&E5&_). rewrite E5 in Ht. eauto.
     - intros t'. destruct (V t') as (_&_&_&_&_&_&_&_&E9&E10). destruct (Nat.eq_dec t' t) as [->|N].
       + rewrite (E10 eq_refl). exact Ho.
